@@ -437,7 +437,10 @@ func flushSummary(c *core.Ctx, fn *ssa.Function, bools map[*ssa.Parameter]bool, 
 				default:
 					callee := cc.StaticCallee()
 					if callee == nil && cc.IsInvoke() {
-						// a responder calling another method of itself through the interface value is not expected
+						// helpers take the client's buffered writer as an io.Writer
+						if strings.HasPrefix(cc.Method.Name(), "Write") && strings.HasPrefix(types.TypeString(cc.Value.Type(), nil), "io.") {
+							s.dirty = true
+						}
 						break
 					}
 					if callee != nil && len(callee.Blocks) > 0 && depth < 4 && callee.Pkg != nil && strings.HasPrefix(callee.Pkg.Pkg.Path(), core.Mod+"/protocol") {
